@@ -10,9 +10,10 @@ def run(ctx):
     if not ctx.quick:
         ctx.exhaustive("Router_MC", "Router_MC_time", timeout=1800)
         ctx.exhaustive("Reuse_MC", "Reuse_MC", timeout=900)
-    # twice: with released buffers poisoned and quarantined (left-over data shows as garbage), and with released
-    # buffers handed straight back to the pool as in production (left-over data shows as another query's answer)
-    for tag, extra in (("c04", []), ("c04np", ["-nopoison"])):
+    # twice: with released buffers poisoned and quarantined (left-over data shows as garbage), and with the pool's
+    # instrumentation off altogether: released buffers go straight back to the pool as in production (left-over
+    # data shows as another query's answer) and the requests are not serialised on the registry lock
+    for tag, extra in (("c04", []), ("c04np", ["-bypass"])):
         d = os.path.dirname(ctx.path(tag, "x"))
         ctx.driver(drv, ["-mode", "c04", "-dir", d] + extra + (["-thorough"] if not ctx.quick else []), timeout=1800, ok_codes=(0, 3))
         raw = os.path.join(d, "c04.ndjson")
